@@ -43,6 +43,7 @@ static unsigned char raw_answer[256];
 static size_t raw_answer_len;
 static char login_qname[512];
 static int login_queries, version_queries;
+static int garbage_first;	/* the first login query is answered with text the client cannot use */
 
 int __wrap_system(const char *cmd);
 int __wrap_system(const char *cmd)
@@ -66,6 +67,10 @@ static int scripted_answer(struct query *q, const unsigned char **data, size_t *
 		*data = ver_reply; *len = ver_reply_len;
 		return ver_reply_len > 0;
 	case 'l': case 'L':
+		if (garbage_first && login_queries <= 1) {
+			*data = (const unsigned char *)"BADLEN"; *len = 6;
+			return 1;
+		}
 		*data = login_reply; *len = login_reply_len;
 		return login_reply_len > 0;
 	case 'i': case 'I':
@@ -93,7 +98,7 @@ ssize_t __wrap_sendto(int fd, const void *buf, size_t len, int flags, const stru
 			if (dns_decode(NULL, 0, &q, QR_QUERY, (char *)dnsq, dnsq_len) >= 0) {
 				if (q.name[0] == 'v' || q.name[0] == 'V')
 					version_queries++;
-				if ((q.name[0] == 'l' || q.name[0] == 'L') && login_queries++ == 0) {
+				if ((q.name[0] == 'l' || q.name[0] == 'L') && (login_queries++ == 0 || garbage_first)) {
 					strncpy(login_qname, q.name, sizeof(login_qname) - 1);
 					login_qname[sizeof(login_qname) - 1] = 0;
 				}
@@ -222,6 +227,7 @@ static int setup(char **argsp)
 	ver_reply_len = login_reply_len = raw_answer_len = 0;
 	raw_pending = raw_answer_set = 0;
 	login_queries = version_queries = 0;
+	garbage_first = 0;
 	login_qname[0] = 0;
 	(void)useed;
 	return 1;
@@ -346,6 +352,9 @@ static int setup_glue(char *args, char **rest)
 	if (n == 0 || n > sizeof(ver_reply))
 		return 0;
 	sp = strchr(a, ' ');
+	garbage_first = sp && (sp[1] == 'n' || sp[1] == 't');
+	if (garbage_first)
+		sp[1] = (char)toupper((unsigned char)sp[1]);
 	if (!sp || (sp[1] != 'N' && sp[1] != 'T'))
 		return 0;
 	client_init();
